@@ -951,6 +951,22 @@ impl<'a> VisitMut for Rewriter<'a> {
                 self.pending_lets.push(parse_quote!(let #pn = #c;));
                 *e = parse_quote!(#f(&mut #x, #pn));
             }
+            Expr::MethodCall(mc) if mc.method == "map" && mc.args.len() == 1
+                && matches!(&*mc.receiver, Expr::MethodCall(im) if im.method == "split" && im.args.len() == 1)
+                && self.expr_map.iter().any(|(f, _)| f == "__adapter_split_map") =>
+            {
+                // R34: `X.split(c).map(f)` -> the stand-in that applies f to every piece (contract over f's
+                // own contract; eager instead of lazy, which is unobservable for a pure f)
+                let to = self.expr_map.iter().find(|(f, _)| f == "__adapter_split_map").map(|(_, t)| t.clone()).unwrap();
+                let f = syn::Ident::new(&to, proc_macro2::Span::call_site());
+                let (x, c) = match &*mc.receiver { Expr::MethodCall(im) => (im.receiver.clone(), im.args.first().unwrap().clone()), _ => unreachable!() };
+                let g = mc.args.first().unwrap().clone();
+                let pn = syn::Ident::new(&format!("vx_pred{}", self.pred_counter), proc_macro2::Span::call_site());
+                self.pred_counter += 1;
+                self.logr("R34", line, format!("`.split(c).map(f)` -> let {} = f; {}(.., c, {})", pn, to, pn));
+                self.pending_lets.push(parse_quote!(let #pn = #g;));
+                *e = parse_quote!(#f(#x, #c, #pn));
+            }
             Expr::MethodCall(mc) => {
                 // R23: `Enum::Variant` passed as a function value -> the closure it denotes
                 let nsyn = self.synth.len();
